@@ -303,3 +303,76 @@ def triggerOf (P : Params) (border : Bool) (dL dR : List Val) (c : Nat) (flag : 
       else "occlusion"
 
 end Pandora.CrossCheck
+
+/-! ## Half-even reading of `round`
+
+  The clauses above read `round` as "a nearest integer" and accept, on an exact half, an outcome that is right
+  for either neighbour.  Python's `round` and `np.rint` both round an exact half to the **even** neighbour; the
+  definitions below restate the same clauses with that single reading at BOTH rounding sites of the statement
+  (the correspondent `q = p + round(dL(p))` and the witness test `round(dR(p + d)) = -d`): one candidate, no
+  alternatives.  They refine the loose clauses (`Properties/C07HalfEven.lean`: every half-even clause implies
+  the loose clause of the same name) and are evaluated next to them, never instead of them. -/
+
+namespace Pandora.CrossCheck
+open Pandora
+
+/-- round half to even, written from its definition and not from `rint`: the integer part of `x + 1/2`,
+    minus one when `x + 1/2` is itself an odd integer (`x` is then exactly half-way between the even `n - 1`
+    and the odd `n`). -/
+def rintEven (x : Rat) : Int :=
+  let n := (x + 1 / 2).floor
+  if (n : Rat) = x + 1 / 2 ∧ n % 2 ≠ 0 then n - 1 else n
+
+/-- `p + round(dL(p))`, half-even; `none` when `dL(p)` is NaN -/
+def correspondentEven (dL : List Val) (c : Nat) : Option Int :=
+  match dL.getD c .nan with
+  | .nan => none
+  | .num d => some ((c : Int) + rintEven d)
+
+/-- some disparity `d` of the interval with `round(dR(p + d)) = -d`, half-even -/
+def witnessEven (P : Params) (dR : List Val) (c : Nat) : Bool :=
+  (arange P.dmin P.dmax).any fun d =>
+    match cell dR ((c : Int) + d) with
+    | some (.num v) => rintEven v == -d
+    | _ => false
+
+/-- `clausesValid` with the half-even witness: mismatch **iff** a witness exists, occlusion **iff** none does -/
+def clausesValidEven (P : Params) (dL dR : List Val) (c : Nat) (flag : Nat) (o : PixOut) (q : Option Int) :
+    List (String × Bool) :=
+  if consistentOpt P dL dR c q then
+    [("kept_iff_consistent", o.flag == flag), ("conf_band_value", confOKOpt dL dR c o.conf q)]
+  else
+    let m := bitAt o.flag 9 == 1
+    let oc := bitAt o.flag 8 == 1
+    let w := witnessEven P dR c
+    [ ("kept_iff_consistent", m || oc),
+      ("mismatch_iff_witness", m == w),
+      ("occlusion_otherwise", oc == !w),
+      ("never_both", !(m && oc)),
+      ("only_bits_8_9", sameExcept89 o.flag flag),
+      ("conf_band_value", confOKOpt dL dR c o.conf q) ]
+
+/-- `clausesPix` with the single half-even correspondent -/
+def clausesPixEven (P : Params) (border : Bool) (dL dR : List Val) (c : Nat) (flag : Nat) (o : PixOut) :
+    List (String × Bool) :=
+  if border then [("border_bit0_only", o.flag == Flags.leftNodataOrBorder)]
+  else if Flags.isInvalid flag then [("invalid_not_reexamined", o.flag == flag)]
+  else clausesValidEven P dL dR c flag o (correspondentEven dL c)
+
+def failingPixEven (P : Params) (border : Bool) (dL dR : List Val) (c : Nat) (flag : Nat) (o : PixOut) : List String :=
+  ((clausesPixEven P border dL dR c flag o).filter (fun x => !x.2)).map (·.1)
+
+/-- the two readings of `round` can differ at this pixel: `dL(p)` is an exact half, or some `dR(p + d)` of the
+    interval is an exact half with `-d` one of its two neighbours -/
+def isTiePix (P : Params) (dL dR : List Val) (c : Nat) : Bool :=
+  decide ((correspondents dL c).length > 1) || (witness false P dR c != witness true P dR c)
+
+/-- situation of a pixel for a half-even clause: the structural situations keep their name; otherwise a pixel
+    at which the two readings can differ is a `half_integer_tie` -/
+def triggerOfEven (P : Params) (border : Bool) (dL dR : List Val) (c : Nat) (flag : Nat) : String :=
+  let t := triggerOf P border dL dR c flag
+  if t == "border" || t == "invalid_pixel" || t == "nan_disparity_on_valid_pixel"
+      || t == "correspondent_outside_right_image" then t
+  else if isTiePix P dL dR c then "half_integer_tie" else t
+
+end Pandora.CrossCheck
